@@ -136,12 +136,29 @@ def check_events(case):
                 if cb["raises"]:
                     raise RuntimeError("callback failure (generated)")
 
+            shape = cb.get("shape", "function")
             if cb["coro"]:
                 async def fn(event):
+                    body(event)
+
+                async def fn2(extra, event):
                     body(event)
             else:
                 def fn(event):
                     body(event)
+
+                def fn2(extra, event):
+                    body(event)
+            # applications register whatever is callable: plain functions, functools.partial objects, bound methods,
+            # instances with __call__ (the latter only for plain callbacks: asyncio does not see them as coroutine functions)
+            if shape == "partial":
+                import functools
+
+                return functools.partial(fn2, "extra")
+            if shape == "method":
+                return type("Listener", (), {"on_event": fn2})().on_event
+            if shape == "object" and not cb["coro"]:
+                return type("Listener", (), {"__call__": fn2})()
             return fn
 
         labels = set()
@@ -256,6 +273,7 @@ callback_st = st.fixed_dictionaries(
         "element": absent_biased(["x", "xy", "y", "nosuch"]),
         "etype": st.sampled_from(["Base", "Base", "Value", "State", "Definition"]),
         "coro": st.sampled_from([False, False, True]),
+        "shape": st.sampled_from(["function", "function", "partial", "method", "object"]),
         "raises": st.sampled_from([False, False, False, True]),
         "oneshot": st.sampled_from([False, False, True]),
         "reg_at": st.sampled_from([0, 0, 0, 1, 2, 5, 9]),
